@@ -98,7 +98,6 @@ use nix::fcntl;
 use nix::sys::select::{self, FdSet};
 use nix::sys::signal::{self, SaFlags, SigAction, SigHandler, SigSet, Signal};
 use nix::sys::time::TimeVal;
-use nix::sys::wait::{self, WaitStatus};
 use nix::unistd::{self, ForkResult, Pid};
 use std::cell::RefCell;
 use std::cmp;
@@ -445,19 +444,7 @@ impl JobServer {
                         }
                         unistd::close(fd).map_err(RedoError::opaque_error)?;
                         let pd = state.wait_fds.remove(&fd).unwrap();
-                        let rv =
-                            wait::waitpid(Some(pd.pid), None).map_err(RedoError::opaque_error)?;
-                        assert_eq!(rv.pid(), Some(pd.pid));
-                        let status = match rv {
-                            WaitStatus::Exited(_, status) => status,
-                            WaitStatus::Signaled(_, signal, _) => -(signal as i32),
-                            _ => {
-                                return Err(RedoError::new(format!(
-                                    "unhandled process status: {:?}",
-                                    rv
-                                )));
-                            }
-                        };
+                        let status = wait_exit_status(pd.pid).map_err(RedoError::opaque_error)?;
                         debug_jobserver!("done1: rv={}", status);
                         {
                             let mut state = pd.state.borrow_mut();
@@ -1067,6 +1054,29 @@ impl Default for EnsureTokenState {
     #[inline]
     fn default() -> Self {
         EnsureTokenState::New
+    }
+}
+
+/// Waits for a child to end and returns its exit status,
+/// or minus the number of the signal that killed it.
+///
+/// The raw wait status is decoded here rather than by [`nix::sys::wait::waitpid`]:
+/// that function reaps the child and then fails with `EINVAL`
+/// for a signal it has no name for (the real-time signals).
+fn wait_exit_status(pid: Pid) -> nix::Result<i32> {
+    let mut status: c_int = 0;
+    let res = unsafe { libc::waitpid(pid.as_raw(), &mut status, 0) };
+    if res == -1 {
+        return Err(Errno::last());
+    }
+    assert_eq!(res, pid.as_raw());
+    if libc::WIFEXITED(status) {
+        Ok(libc::WEXITSTATUS(status))
+    } else if libc::WIFSIGNALED(status) {
+        Ok(-libc::WTERMSIG(status))
+    } else {
+        // Neither WUNTRACED nor WCONTINUED was asked for.
+        Err(Errno::EINVAL)
     }
 }
 
